@@ -48,7 +48,10 @@ RULE_ADDED = (
 RULE = RULE + " " + RULE_ADDED.strip()
 ASSUMPTIONS = [
     "fault kinds are those of the HID transport (write() < 0, read error, time-out) as the "
-    "property quantifies; a dropped TCP link surfaces as another exception class and is not judged",
+    "property quantifies; over the TCP transports the same exception shapes are raised by the "
+    "fake socket (a dropped TCP link as the real socket reports it - ConnectionError, "
+    "struct.error - is another exception class, not classified by the dongle layer, and is "
+    "judged in C03 / C09 where the property speaks about it)",
     "exit_app / exit_menu steps are excluded from the -905 obligation (the code's contract "
     "treats a link drop there as the normal outcome); they are still run and must not raise",
 ]
